@@ -100,12 +100,18 @@ def make_case(ctx, rng, i):
         kind = "prefix-groups"
     if rng.random() < 0.06 and not kind.startswith(("hidden-cycle", "right-recursion")):
         # a symbol with an empty list of productions (legal: it simply never matches)
-        free = [n for n in gram.NT_NAMES + ['X', 'Y', 'Z'] if n not in prods]
+        free = [n for n in (['Z', 'Y', 'X'] if rng.random() < 0.5 else []) + gram.NT_NAMES + ['X', 'Y', 'Z'] if n not in prods]
         if free:
             prods[free[0]] = []
-            if rng.random() < 0.5:
+            r2 = rng.random()
+            if r2 < 0.35:
                 nt = rng.choice([n for n in prods if prods[n]])
                 prods[nt] = prods[nt] + [(rng.choice(terms), free[0])]
+            elif r2 < 0.7:
+                # the symbol that never matches stands in FRONT of a recursive use: it cannot vanish, so this is no
+                # left recursion
+                nt = rng.choice([n for n in prods if prods[n]])
+                prods[nt] = prods[nt] + [(free[0], nt)]
     return cfg_id, terms, prods, start, kind
 
 
